@@ -104,6 +104,15 @@ func c19ExecPass(c c19Case, afterScribble bool) (keys []string, detail, class st
 	var err error
 	h := c19Hours[c.Hours]
 	if afterScribble {
+		// the instance was first configured differently (other strings, flags and clock), produced
+		// metadata in both variants - which its holder then wrote all over - and was reconfigured
+		other := c
+		other.SAR, other.Skip, other.Clock = !c.SAR, !c.Skip, (c.Clock+1)%len(c15Clocks)
+		other.Str = []int{1 + (c.Str[0]+2)%5, 1 + (c.Str[1]+2)%5, 1 + (c.Str[2]+2)%5}
+		used, _, _ := c19SP(other)
+		fresh := sp
+		sp = used
+		defer func() { _ = fresh }()
 		guard(func() {
 			for _, slo := range []bool{false, true} {
 				var m *types.EntityDescriptor
@@ -117,6 +126,7 @@ func c19ExecPass(c c19Case, afterScribble bool) (keys []string, detail, class st
 				}
 			}
 		})
+		copyConfig(sp, fresh)
 	}
 	p := guard(func() {
 		if c.SLO {
